@@ -45,7 +45,9 @@ func (p c09Pose) info() map[string]interface{} {
 
 func (p c09Pose) hints() map[gozxing.DecodeHintType]interface{} {
 	if p.TryHarder {
-		return map[gozxing.DecodeHintType]interface{}{gozxing.DecodeHintType_TRY_HARDER: true}
+		// "Doesn't matter what it maps to" (decode_hint_type.go): the presence of the key is the request
+		vals := []interface{}{true, true, struct{}{}, 1, "true"}
+		return map[gozxing.DecodeHintType]interface{}{gozxing.DecodeHintType_TRY_HARDER: vals[(p.Scale+p.PadL+p.Rot/90)%len(vals)]}
 	}
 	return nil
 }
